@@ -26,6 +26,8 @@ parameter vectors.  `toM n f` is the `n × n` Mathlib matrix of a model matrix `
 -/
 namespace BqVerif.C18
 open BqVerif.Gates Matrix
+set_option linter.unusedSectionVars false
+set_option linter.unusedVariables false
 
 variable {R : Type} [CommRing R] [StarRing R]
 
